@@ -16,7 +16,7 @@
      notemp s   : no indexed key and no pending key is named like a cache temp file (".sccachetmp...")
      op_notemp  : the op does not name such a key *)
 From Coq Require Import List NArith Bool.
-From Sccache Require Import Base.Sx Model.Lru Proofs.Lru.
+From Sccache Require Import Base.Sx Model.Lru Model.LruPut Proofs.Lru Proofs.LruPut.
 Import ListNotations.
 Local Open Scope N_scope.
 
@@ -125,7 +125,44 @@ Theorem C07_recency_survives_restart :
 Proof. exact C07_recency_survives_restart_proof. Qed.
 Print Assumptions C07_recency_survives_restart.
 
+(* The caller protocol of the disk cache (Model/LruPut.v: DiskCache::put and put_preprocessor_cache_entry =
+   reserve -> write -> commit | abandon, with a write-fault oracle): whatever the outcome — stored, refused,
+   write failed after any number of bytes, commit refused — no reservation and no in-flight handle outlives
+   the call, and the accounting invariant is kept.  (put_pp merely drops the entry when the write fails;
+   that is harmless only because it reserves 0 bytes.) *)
+Theorem C07_put_releases :
+  (forall s k n fault, inv s ->
+     let s' := fst (put s k n fault) in
+     inv s' /\ handles s' = handles s /\ pending_size s' = pending_size s /\ cap s' = cap s) /\
+  (forall s k n fault, inv s ->
+     let s' := fst (put_pp s k n fault) in
+     inv s' /\ handles s' = handles s /\ pending_size s' = pending_size s /\ cap s' = cap s).
+Proof. exact C07_put_releases_proof. Qed.
+Print Assumptions C07_put_releases.
+
+(* Hence no history of stores and lookups through DiskCache — with any number of failing writes — makes it
+   unusable: after every history from any directory nothing is reserved and every entry up to the capacity is
+   stored (and indexed). *)
+Theorem C07_put_never_wedges :
+  forall s0 c ops, let s := drun (reopen s0 c) ops in
+    inv s /\ handles s = [] /\ pending_size s = 0 /\ cap s = c /\
+    forall k n, n <= cap s ->
+      snd (put s k n None) = POk /\ alookup k (index (fst (put s k n None))) = Some n.
+Proof. exact C07_put_never_wedges_proof. Qed.
+Print Assumptions C07_put_never_wedges.
+
 (* ---------------- non-vacuity ---------------- *)
+
+(* three stores whose writes fail (after 0, 10 and 59 bytes) beside a stored entry: nothing stays reserved, the
+   stored entry is still there, and an entry filling the rest of the cache is accepted *)
+Example C07_ex_failed_puts_release :
+  let a := [97; 47; 97; 47; 97] in let b := [98; 47; 98; 47; 98] in
+  let s := drun (reopen (empty 100) 100)
+             [DPut a 40 None; DPut b 60 (Some 0); DPut b 60 (Some 10); DPut b 60 (Some 59)] in
+  index s = [(a, 40)] /\ pending_size s = 0 /\ handles s = [] /\
+  snd (put s b 60 None) = POk /\ index (fst (put s b 60 None)) = [(a, 40); (b, 60)].
+Proof. vm_compute. repeat split. Qed.
+
 
 (* a run that fills the cache and then evicts two entries, oldest first, deleting their files *)
 Example C07_ex_evicts_two_in_order :
